@@ -413,7 +413,8 @@ def check_init(model, pcls, K, d, res, out):
     ob("R02-FRAME", not mut, "__init__ does not modify the user's domain", "%d in-place store(s)" % len(mut))
 
 
-TIME_BUDGET = float(os.environ.get("PYXAB_CONFIG_BUDGET", "240"))     # seconds of path enumeration per (class, K, d)
+# seconds of path enumeration per (class, K, d): a quarter of the whole check's time limit, at most 240 s
+TIME_BUDGET = float(os.environ.get("PYXAB_CONFIG_BUDGET", "") or min(240.0, float(os.environ.get("PYXAB_CHECK_TIMEOUT", "900")) / 4))
 PATH_BUDGET = 160
 HARD_BUDGET = 4000
 
